@@ -14,7 +14,9 @@ func VerifHarness_C05_SmallCache() {
 		q := queries[verifIntRange("query", 0, len(queries)-1)]
 		o := SearchOptions{Limit: 3}
 		if verifBool("put") {
-			sc.Put(q, o, []SearchResult{{Score: float64(nextID)}})
+			mine := []SearchResult{{Score: float64(nextID)}}
+			sc.Put(q, o, mine)
+			mine[0].Score = -1 // the caller goes on using its slice: the cache keeps its own copy
 			stored[q] = nextID
 			nextID++
 		} else {
@@ -30,6 +32,28 @@ func VerifHarness_C05_SmallCache() {
 			}
 		}
 		verifAssert(sc.Size() <= capN, "C05: the cache never holds more entries than its capacity")
+	}
+	verifReach("done")
+}
+
+// answers of any length come back whole (request limits above 100 are legal for library callers
+// and `wtf pipeline --limit`)
+func VerifHarness_C05_LongAnswer() {
+	sc := NewSearchCache(4, 0)
+	n := []int{1, 99, 100, 101, 150}[verifIntRange("results", 0, 4)]
+	res := make([]SearchResult, n)
+	for i := range res {
+		res[i] = SearchResult{Score: float64(n - i)}
+	}
+	o := SearchOptions{Limit: 200}
+	sc.Put("aa", o, res)
+	got, found := sc.Get("aa", o)
+	verifAssert(found, "C05: a stored answer is found again")
+	verifAssert(len(got) == n, "C05: a cached answer is the list that was stored (whole)")
+	if len(got) == n {
+		for i := range got {
+			verifAssert(got[i].Score == float64(n-i), "C05: a cached answer is the list that was stored (entries, order)")
+		}
 	}
 	verifReach("done")
 }
